@@ -58,7 +58,7 @@ type Proof struct {
 }
 
 func (p *Proof) IsValid(public Public) bool {
-	if p == nil {
+	if p == nil || p.Commitment == nil {
 		return false
 	}
 	if !arith.IsValidNatModN(public.Verifier.N(), p.W) {
